@@ -134,6 +134,10 @@ def run(ctx):
     ctx.rule("C02.R5", "register sources are read before any register destination is written", floor=10)
     for i, h in enumerate(hs):
         f = prog.fns[h]
+        # the two stack helpers are judged as part of the handler (their reads and writes of R7 take part in the order)
+        helpers5 = {c_ for b_, t_, c_ in f.calls() if c_ and re.search(r"RunState::(push_val|pop_val)$", c_)}
+        if helpers5:
+            f = kit.inlined_view(prog, f, helpers5)
         written_refs = {s["p"]["l"] for b, i2, s in f.assigns() if s["p"].get("pr") == ["*"]}
         writes, reads = [], []
         for b, t, c in f.calls():
@@ -143,19 +147,22 @@ def run(ctx):
                 # the write happens where the reference is stored through
                 for b2, i2, s in f.assigns():
                     if s["p"].get("pr") == ["*"] and s["p"]["l"] == t["dest"]["l"]:
-                        writes.append((b2, expr_str(f.expr(t["args"][1], 8)), t))
+                        e = f.expr(t["args"][1], 8)
+                        writes.append((b2, expr_str(e), t, e[0] == "const"))
             elif c.endswith("RunState::push_val") or c.endswith("RunState::pop_val"):
-                writes.append((b, "R7 (stack pointer)", t))
+                writes.append((b, "R7 (stack pointer)", t, True))
             elif c.endswith("RunState::reg") or (c.endswith("RunState::reg_mut") and t["dest"]["l"] not in written_refs):
                 e = f.expr(t["args"][1], 8)
-                if e[0] != "const":
-                    reads.append((b, expr_str(e), t))
+                reads.append((b, expr_str(e), t, e[0] == "const"))
         ctx.instance(1)
         bad = []
-        for wb, wdesc, wt in writes:
-            after = f.reachable(wb) - {wb}
-            for rb, rdesc, rt in reads:
-                if rb in after:
+        for wb, wdesc, wt, wconst in writes:
+            # a store is a statement, a register read is the call that ends a block: a read ending the block of the store comes after it
+            after = f.reachable(wb) if wt is not None and callee_of(wt) and callee_of(wt).endswith("RunState::reg_mut") else f.reachable(wb) - {wb}
+            for rb, rdesc, rt, rconst in reads:
+                # a register named by an instruction field can be any register, also the one a constant names (POP R7, JSRR R7); two
+                # constants are the handler's own bookkeeping of one register (R7 = R7 - 1, then mem[R7])
+                if rb in after and not (wconst and rconst):
                     bad.append((wdesc, rdesc, rt))
         ctx.oblig(not bad)
         for wdesc, rdesc, rt in bad:
